@@ -132,7 +132,8 @@ class StdoutBinaryProxy(io.BufferedIOBase):
 
 # Environment of the current run (set by harness.run_sim): which compressed formats are written
 # through an external program, and the open() call that fails with EMFILE
-ENV = {"piped_exts": (), "emfile_at": None}
+ENV = {"piped_exts": (), "emfile_at": None, "enospc": None}
+_WOPENS = [0]
 _OPENS = [0]
 FIRED = {}
 
@@ -140,7 +141,9 @@ FIRED = {}
 def begin_run(env):
     ENV["piped_exts"] = tuple(env.get("piped_exts") or ())
     ENV["emfile_at"] = env.get("emfile_at")
+    ENV["enospc"] = env.get("enospc")
     _OPENS[0] = 0
+    _WOPENS[0] = 0
     FIRED.clear()
 
 
@@ -193,6 +196,66 @@ class PipedWriter(io.BufferedIOBase):
         self._f.close()
 
 
+class FullDiskWriter(io.BufferedIOBase):
+    """
+    An output file on a file system that runs full: the first `quota` bytes written to it arrive,
+    the rest is lost, and - as with a buffered writer or NFS - the program only learns about it
+    when it flushes or closes the file (OSError ENOSPC).
+    """
+
+    def __init__(self, f, quota):
+        super().__init__()
+        self._f = f
+        self._left = quota
+        self.lost = False
+        self.name = getattr(f, "name", None)
+
+    def writable(self):
+        return True
+
+    def write(self, b):
+        if self.closed:
+            raise ValueError("write to closed file")
+        n = len(b)
+        if n <= self._left:
+            self._f.write(b)
+            self._left -= n
+        else:
+            if self._left:
+                self._f.write(bytes(b[: self._left]))
+                self._left = 0
+            if not self.lost:
+                FIRED["enospc"] = FIRED.get("enospc", 0) + 1
+            self.lost = True
+        return n
+
+    def _fail(self):
+        import errno
+
+        raise OSError(errno.ENOSPC, "No space left on device")
+
+    def flush(self):
+        if not self.closed:
+            self._f.flush()
+            if self.lost:
+                self._fail()
+
+    def close(self):
+        if self.closed:
+            return
+        try:
+            self._f.close()
+        finally:
+            self._closed_flag = True
+        lost, self.lost = self.lost, False
+        if lost:
+            self._fail()
+
+    @property
+    def closed(self):
+        return getattr(self, "_closed_flag", False)
+
+
 def sim_xopen(filename, mode="r", compresslevel=None, threads=None, **kwargs):
     """Replacement for the name `xopen` inside cutadapt.files."""
     _OPENS[0] += 1
@@ -207,7 +270,21 @@ def sim_xopen(filename, mode="r", compresslevel=None, threads=None, **kwargs):
             return _xopen_mod.xopen("-", mode, threads=0, **kwargs)
         proxy = StdoutBinaryProxy(_STDOUT_BUF)
         return io.TextIOWrapper(proxy, encoding="utf-8") if ("t" in mode or mode == "w") else proxy
+    if isinstance(filename, str) and filename.startswith("/dev/fd/"):
+        from . import kernel as K
+
+        k = K._CURRENT
+        if k is not None and k.start_method != "fork" and getattr(k, "_current", None) is not None and k._current.tid != 0:
+            # a spawned child (close_fds=True) does not inherit the descriptors behind /dev/fd/N
+            import errno
+
+            FIRED["devfd_missing_in_spawned_child"] = FIRED.get("devfd_missing_in_spawned_child", 0) + 1
+            raise FileNotFoundError(errno.ENOENT, "No such file or directory", filename)
     f = _xopen_mod.xopen(filename, mode, compresslevel=compresslevel, threads=0, **kwargs)
+    if mode == "wb" and ENV["enospc"] and isinstance(filename, str):
+        _WOPENS[0] += 1
+        if _WOPENS[0] == ENV["enospc"]["nth"]:
+            return FullDiskWriter(f, ENV["enospc"]["quota"])
     if mode == "wb" and threads != 0 and isinstance(filename, str) and filename.endswith(ENV["piped_exts"] or ("\0",)):
         from . import kernel as K
 
